@@ -209,3 +209,26 @@ Proof.
     split; [vm_compute; reflexivity|]. split; [vm_compute; repeat constructor; discriminate|]. vm_compute; reflexivity.
   - split; [vm_compute; reflexivity|]. split; vm_compute; reflexivity.
 Qed.
+
+(* "independently of the messages before it", at the level of the spec: a piece [a] of the stream that
+   is well-formed on the wire (so it ends at a message boundary) contributes exactly ITS messages,
+   whatever follows, and what follows is well-formed / has the messages it would have standing alone.
+   Hence, with the theorem above, the verdicts of a ++ b are the verdicts of a followed by those of b. *)
+Theorem C07_messages_split : forall c a b, Forall wf_sframe a -> wire_ok c a ->
+  messages_of c (a ++ b) = messages_of c a ++ messages_of c b /\ (wire_ok c (a ++ b) <-> wire_ok c b).
+Proof. exact messages_of_app. Qed.
+Print Assumptions C07_messages_split.
+
+(* ... and ONE structured data message (extension attached; first frame with reserved bits rsv0, any
+   fragmentation [l] with control frames in between, every frame fitting the side's mask rule and
+   MaxFrameSize) is well-formed on the wire and is its own single message: opcode op, payload the
+   concatenation of its fragments — so its verdict is VInvalid exactly when op = 1 and that
+   concatenation is not valid UTF-8. *)
+Theorem C07_messages_of_one_message : forall c rsv0 op k0 p0 l, c_ext c = true -> (op = 1 \/ op = 2) ->
+  (rsv0 = 0 \/ st_extended (c_state c) = true) ->
+  let fs := ReaderStreamC13.msg_frames_rsv rsv0 op k0 p0 l in
+  Forall wf_sframe fs -> Forall (fun f => mask_ok (c_state c) f = true /\ too_large c f = false) fs ->
+  Forall (fun x => Forall (fun f => ctl_ok f = true) (fr_ctl x)) l ->
+  wire_ok c fs /\ messages_of c fs = [mkEv op (msg_payload p0 l) false (ReaderStreamC13.rsv1_bit rsv0)].
+Proof. exact messages_of_message. Qed.
+Print Assumptions C07_messages_of_one_message.
